@@ -269,7 +269,7 @@ Proof.
     match goal with |- context [with_conn b i ?cc] => set (c' := cc) end.
     assert (BI (with_conn b i c')) as H1 by (apply (BI_with_conn b i c c' G); [reflexivity | reflexivity | exact H]).
     assert (get_conn (b_conns (with_conn b i c')) (N.to_nat i) = Some c') as G1 by (unfold with_conn; cbn [b_conns]; eapply get_set_same; exact G).
-    destruct (auth e _ AllowRead) as [k|]; [|exact H1]. destruct sub; [|exact H1].
+    destruct (auth e _ AllowRead) as [k|]; [|exact H1]. destruct (sub && negb (has_permission k AllowExtend)); [|exact H1].
     apply BI_subscribe; assumption. }
   destruct (q =? h_history).
   { destruct r as [| | channel |]; try (apply BI_emit; exact H).
